@@ -3,7 +3,7 @@
 # Confirms a seeded change: applies to HEAD, builds, existing suite green, demo fails with / passes without.
 set -u
 slot=$1; d=$(readlink -f "$2"); pkg=$3
-export GOFLAGS=-mod=mod GOPROXY=off GOSUMDB=off GOTOOLCHAIN=local
+export GOFLAGS="-mod=mod -trimpath" GOPROXY=off GOSUMDB=off GOTOOLCHAIN=local
 w=/root/mutrun/$slot/vrepo
 mkdir -p /root/mutrun/$slot
 [ -d "$w" ] && { git -C /repo worktree remove --force "$w" >/dev/null 2>&1; rm -rf "$w"; }
